@@ -58,6 +58,10 @@ CLAIMED = {
    text="the builder is specified as a state machine (ContractBuilder.tla: one slot per property, Set with convertible / inconvertible argument, Build); TLC explores every history of setter calls within the bound for four struct shapes, each history is compiled into a driver against the real generated builder and run, and the recorded result is validated by TLC by replaying the history through the contract's actions: success iff every non-defaulted property set and no failed conversion, error names a failing property, built value equals serde's value for the same members, struct -> builder -> struct is the identity",
    note="bounded: 4 structs, histories of <= 3 (thorough 4) setter calls; trusted: TLC, rustc, serde, vdrive",
    ref="DESIGN.md 6 C18"),
+ "C09": dict(
+   text="TLC enumerates allOf compositions (2-3 subschemas over objects, references, enums, types, arrays, nested oneOf, unsatisfiable conjunctions), builds one definition per permutation and the candidate instances (per-branch instances, their unions), classifies them with Schema!Valid on the allOf itself; the compiled types are run on every (permutation, candidate); TLC validates the recorded acceptance matrix: valid under all subschemas => accepted by every permutation, all permutations agree on acceptance and round-trip output, and a conjunction that merging reports as never (hook) with no valid candidate accepts nothing",
+   note="bounded: 21 compositions, all permutations, ~40 candidates each; trusted: TLC, Schema.tla (self-checked), hook verif_merge_all, rustc, serde, vdrive",
+   ref="DESIGN.md 6 C09"),
 }
 NA_REASON = {}
 DEFAULT_NA = "check under construction in this session (DESIGN.md 11); not yet claimed"
